@@ -33,6 +33,10 @@ func init() {
 			{ID: "C07.S10", Alias: "C05.R4"},
 			{ID: "C07.S11", Alias: "C01.R7"},
 			{ID: "C07.S12", Alias: "C01.R9"},
+			{ID: "C07.S13", Alias: "C03.R8"},
+			{ID: "C07.S14", Alias: "C03.R9"},
+			{ID: "C07.S15", Alias: "C03.R4"},
+			{ID: "C07.S16", Alias: "C03.R5"},
 		},
 	})
 }
